@@ -46,6 +46,7 @@ HEADS_X = [
     ("new", "Made", (X,), ()),
     ("new", "Made", (A(X, "p"), A(X, "q"), X), ()),
     ("new", "Made2", (), (("a", A(X, "s")), ("b", A(A(X, "ref"), "p")))),
+    ("new", "MadeB", (), (("a", X), ("b", A(X, "flag")))),      # the constructed instance is falsy when x.flag is
 ]
 
 
@@ -86,10 +87,27 @@ def cases(tier, inst):
                 if quant == "infer" and kind == "entity0" and t[0] != "cmp":
                     continue
                 yield ("pformrule", (quant, kind), t, "rich")
+    # nested constructor term that is itself inferred: its variables reach the head only through the nested term
+    for bk in NINFER_B:
+        yield ("ninfer", bk, None, "rich")
+        for t in trees_by_depth(leaves_xy(), 1):
+            if thorough or bk in ("bx", "b5") or t[0] in ("or", "and"):
+                yield ("ninfer", bk, t, "rich")
     # nested constructor term: matches Made2 instances already in the registry, reused as field values
     for pre in ((), ((0, 0),), ((0, 0), (1, 2)), ((0, 0), (0, 0)), ((3, 1), (2, 2), (0, 3))):
         for t in (None, XY_REP[0], XY_REP[2]):
             yield ("nested", pre, t, "rich")
+
+
+NINFER_B = {"bx": X, "by": Y, "b5": L(5), "bxp": A(X, "p")}
+
+
+def ninfer_query(case):
+    """Made(a=infer(Made2(a=x, b=y)), b=...): the nested term is itself inferred (a new Made2 per assignment)"""
+    _, bk, tree, w = case
+    inner = ("sub", ("Q", "infer", "entity", ("new", "Made2", (), (("a", X), ("b", Y))), (), ()))
+    return ("Q", "infer", "entity", ("new", "Made", (), (("a", inner), ("b", NINFER_B[bk]))), (tree,) if tree else (),
+            VARS3[:2])
 
 
 def pformrule_query(case):
@@ -104,7 +122,11 @@ def query_of(case):
     if vk == "pformrule":
         # what the rule means (used by the reference semantics): one Made(a=x, b=y) per (x, y) satisfying the body
         return ("Q", "infer", "entity", ("new", "Made", (), (("a", X), ("b", Y))), (tree,), VARS3[:2])
-    if vk == "nested":
+    if vk == "ninfer":
+        # what it means (for the reference semantics): the nested Made2 is compared structurally
+        head = ("new", "Made", (), (("a", ("new", "Made2", (), (("a", X), ("b", Y)))), ("b", NINFER_B[head])))
+        vars_ = VARS3[:2]
+    elif vk == "nested":
         head = ("new", "Made", (), (("a", ("new", "Made2", (), (("a", X), ("b", Y)))), ("b", X)))
         vars_ = VARS3[:2]
     else:
@@ -125,9 +147,13 @@ def run_case(case, inst):
         pre = []
         if case[0] == "nested":
             pre = [W.Made2(a=world["DA"][i], b=world["DB"][j]) for i, j in case[1]]
+        got2 = None
         try:
-            obj, b = Q.build(pformrule_query(case) if case[0] == "pformrule" else q, world, inst, mode="rule")
+            built = pformrule_query(case) if case[0] == "pformrule" else (ninfer_query(case) if case[0] == "ninfer" else q)
+            obj, b = Q.build(built, world, inst, mode="rule")
             got = [(r,) for r in obj.evaluate()]
+            if case[0] == "ninfer":
+                got2 = [(r,) for r in obj.evaluate()]        # the same rule object evaluated again
         except Exception as e:
             got = exc_obs(e)
         ref = Q.Ref(world, inst)
@@ -152,14 +178,18 @@ def run_case(case, inst):
                 got = relabel(got)
         else:
             exp = [(ref.value(q[3], env),) for env in sols]
-        return got, exp, total, len(sols)
+        return got, got2, exp, total, len(sols)
 
-    got, exp, total, nsol = run_isolated(body)
+    got, got2, exp, total, nsol = run_isolated(body)
     d = diff_rows(got, exp, count=True)
+    if d is None and got2 is not None:
+        d = diff_rows(got2, exp, count=True)
+        if d is not None:
+            d, got = "reevaluation:" + d, got2
     tree = case[2]
     res = {"ok": d is None, "nontrivial": 0 < nsol < total, "transitions": 1 + (0 if is_exc(got) else len(got)),
            "tags": [f"vars={case[0]}", f"root={root_kind(tree) if tree else 'none'}",
-                    "positional" if (case[0] not in ("nested", "pformrule") and case[1][2]) else "keyword",
+                    "positional" if (case[0] not in ("nested", "pformrule", "ninfer") and case[1][2]) else "keyword",
                     "world=" + (case[3] if isinstance(case[3], str) else "tiny")],
            "outcome": str(nsol)}
     if d is not None:
@@ -173,5 +203,6 @@ def describe(case, inst):
     if case[0] == "nested":
         pre = "\n" + "\n".join(f"Made2(a=DA[{i}], b=DB[{j}])   # registered beforehand" for i, j in case[1])
     return (Q.up_world(world_of(case), inst) + pre + "\n"
-            + Q.up_query(pformrule_query(case) if case[0] == "pformrule" else query_of(case), inst, mode="rule")
+            + Q.up_query(pformrule_query(case) if case[0] == "pformrule" else
+                         (ninfer_query(case) if case[0] == "ninfer" else query_of(case)), inst, mode="rule")
             + "\ninstances = list(q.evaluate())   # expected: one instance per satisfying assignment, built from it")
